@@ -205,6 +205,19 @@ func oracleC05(r *Result) ([]Violation, bool) {
 	// token handed to OnPromote == token of the acquisition write
 	pi := map[string]int{}
 	lastProm := map[string]string{}
+	acqRev := map[string]map[string]uint64{}
+	for _, op := range r.Ops {
+		if op.isStoreOp() && op.Wrote != nil && !op.Wrote.Del && (op.Kind == "Create" || op.Label == "takeover") {
+			if p, ok := parsePayload(op.Val); ok {
+				if acqRev[op.Inst] == nil {
+					acqRev[op.Inst] = map[string]uint64{}
+				}
+				if acqRev[op.Inst][p.Token] == 0 {
+					acqRev[op.Inst][p.Token] = op.Wrote.Rev
+				}
+			}
+		}
+	}
 	for _, e := range r.Trace {
 		if e.K == "promote" {
 			found := false
@@ -233,7 +246,14 @@ func oracleC05(r *Result) ([]Violation, bool) {
 					s.add(e.T, "status-token-differs", "%s: Token()=%s Status().Token=%s", sn.I, sn.Token, sn.SToken)
 				}
 				if rec := recOf(r, &e, sn.I); rec != nil && rec.ID == sn.I && rec.By == sn.I && rec.Token != sn.Token {
-					s.add(e.T, "leader-token-differs-from-record", "%s leads with Token()=%s but its live record rev %d carries %s", sn.I, sn.Token, rec.Rev, rec.Token)
+					if sn.Fine && acqRev[sn.I][rec.Token] > acqRev[sn.I][sn.Token] && acqRev[sn.I][sn.Token] > 0 {
+						// inside a fine window: the live record is a *newer* acquisition write of
+						// the same instance (a second round won after the first record had been
+						// removed) whose reply the instance has not processed yet; judged at the
+						// next quiescent point
+						continue
+					}
+					s.add(e.T, "leader-token-differs-from-record", "%s leads with Token()=%s at %v (fine=%v, latest OnPromote %s) but its live record rev %d carries %s", sn.I, sn.Token, e.T, sn.Fine, lastProm[sn.I], rec.Rev, rec.Token)
 				}
 			}
 		}
@@ -720,7 +740,10 @@ func oracleC18(r *Result) ([]Violation, bool) {
 					if sn.SLeader != sn.I {
 						s.add(e.T, "leader-snapshot-leaderid", "%s: leader's Status().LeaderID is %q at %v", sn.I, sn.SLeader, e.T)
 					}
-					if tt := termTok[sn.I]; tt != "" && sn.SToken != tt && sn.NProm-sn.NDem == 1 {
+					// (inside a fine window the callback goroutine of a term that has just begun
+					// may still be parked in front of its OnPromote: the comparison with the latest
+					// promotion token is made at quiescent points only)
+					if tt := termTok[sn.I]; tt != "" && sn.SToken != tt && sn.NProm-sn.NDem == 1 && !sn.Fine {
 						s.add(e.T, "leader-snapshot-token", "%s: leader's Status().Token is %s, term token %s", sn.I, sn.SToken, tt)
 					}
 					if sn.OwnRev != 0 && sn.SRev != sn.OwnRev && sn.Pend == 0 && !sn.Fine {
